@@ -16,7 +16,7 @@ from xitorch import EditableModule
 
 from vlib import tlc as tlcmod
 from vlib.ctx import Machinery
-from props.c12 import enumerate_cfgs, make_limit, Counting, NF, NB, ND
+from props.c12 import enumerate_cfgs, make_limit, make_param, Counting, NF, NB, ND, LO, HI, QC_BASE, QC_INVS
 
 DT = torch.float64
 
@@ -57,23 +57,23 @@ class Holder(EditableModule):
 def run(ctx):
     thorough = ctx.tier == "thorough"
     states = enumerate_cfgs(ctx, "bwd")
-    for sw in ("BckForwarded", "KindRemembered", "AllowUnused"):
-        c = dict(NFwd=NF, NBck=NB, NDefault=ND, BckForwarded=True, KindRemembered=True, AllowUnused=True)
+    for sw in ("BckForwarded", "KindRemembered", "AllowUnused", "EmptyParamsOk"):
+        c = dict(QC_BASE)
         c[sw] = False
-        t, cf = tlcmod.gen_mc(ctx.work, "QuadCfg", "MC_QC_dev_" + sw, c, invariants=["NeverRaises", "BackwardRule", "LimitsGetGradIffRequired"])
+        t, cf = tlcmod.gen_mc(ctx.work, "QuadCfg", "MC_QC_dev_" + sw, c, invariants=QC_INVS)
         ctx.expect_violation(t, cf, label="deviation " + sw, workers=4, timeout=300)
     n = 0
     with warnings.catch_warnings():
         warnings.simplefilter("ignore")
         for st in states:
             n += 1
-            key = tuple(st[k] for k in ("xlKind", "xuKind", "xlInf", "xuInf", "nGiven", "bckGiven", "hasUnused"))
+            key = tuple(st[k] for k in ("xlKind", "xuKind", "xlInf", "xuInf", "nGiven", "bckGiven", "hasUnused", "aKind"))
             pred = st["pred"]
-            ctx.case(key=key, sample={"cfg": dict(zip(("xlKind", "xuKind", "xlInf", "xuInf", "nGiven", "bckGiven", "hasUnused"), key)), "spec": pred} if n % 37 == 1 else None)
+            ctx.case(key=key, sample={"cfg": dict(zip(("xlKind", "xuKind", "xlInf", "xuInf", "nGiven", "bckGiven", "hasUnused", "aKind"), key)), "spec": pred} if n % 37 == 1 else None)
             cnt = Counting()
-            xl = make_limit(st["xlKind"], st["xlInf"], -1, -0.4)
-            xu = make_limit(st["xuKind"], st["xuInf"], +1, 0.9)
-            a = torch.tensor(0.8, dtype=DT, requires_grad=True)
+            xl = make_limit(st["xlKind"], st["xlInf"], -1, LO)
+            xu = make_limit(st["xuKind"], st["xuInf"], +1, HI)
+            a = make_param(st["aKind"], 0.8)
             junk = torch.tensor(0.1, dtype=DT, requires_grad=True)
             params = (a, junk) if st["hasUnused"] else (a,)
             kw = {}
@@ -81,49 +81,107 @@ def run(ctx):
                 kw["n"] = NF
             if st["bckGiven"]:
                 kw["bck_options"] = {"n": NB}
-            label = "limits (%s%s, %s%s), n %s, bck_options %s, unused tensor %s" % (st["xlKind"], " inf" if st["xlInf"] else "", st["xuKind"], " inf" if st["xuInf"] else "",
-                                                                                    "given" if st["nGiven"] else "default", "given" if st["bckGiven"] else "absent", st["hasUnused"])
+            label = "limits (%s%s, %s%s), n %s, bck_options %s, unused tensor %s, coefficient passed as %s" % (
+                st["xlKind"], " inf" if st["xlInf"] else "", st["xuKind"], " inf" if st["xuInf"] else "",
+                "given" if st["nGiven"] else "default", "given" if st["bckGiven"] else "absent", st["hasUnused"], st["aKind"])
+            hasA = st["aKind"] == "tensor_grad"
             try:
                 out = xitorch.integrate.quad(cnt, xl, xu, params=params, **kw)
                 nf = len(cnt.xs)
-                leaves = [a] + ([junk] if st["hasUnused"] else []) + [x for x in (xl, xu) if isinstance(x, torch.Tensor) and x.requires_grad]
-                g = torch.autograd.grad(out.sum(), leaves, allow_unused=True)
+                if bool(out.requires_grad) != bool(pred["needsBwd"]):
+                    ctx.violation("quad/bwd/requires-grad", "quad with %s: result %s a graph, specification says %s" % (label, "carries" if out.requires_grad else "does not carry", pred["needsBwd"]),
+                                  {"cfg": str(key)})
+                    continue
+                if not pred["needsBwd"]:
+                    continue
+                leaves = ([a] if hasA else []) + ([junk] if st["hasUnused"] else []) + [x for x in (xl, xu) if isinstance(x, torch.Tensor) and x.requires_grad]
+                g = list(torch.autograd.grad(out.sum(), leaves, allow_unused=True))
+                if not hasA:
+                    g = [None] + g
             except Exception as e:
                 num = st["xlKind"] == "number" or st["xuKind"] == "number"
                 kk = "quad/bwd/unused-tensor-raises" if (st["hasUnused"] and "not have been used" in str(e)) else \
-                     ("quad/bwd/number-limit-raises" if num else "quad/bwd/raise")
+                     ("quad/bwd/number-limit-raises" if num else
+                      "quad/bwd/no-tensor-parameter-raises" if (st["aKind"] == "number" and not st["hasUnused"]) else "quad/bwd/raise")
                 ctx.violation(kk, "differentiating quad with %s raised %s: %s" % (label, type(e).__name__, str(e)[:160]), {"cfg": str(key)})
                 continue
             nb = len(cnt.xs) - nf
             why = None
-            if nb != pred["bwdEvals"]:
-                why = ("backward pass evaluated the integrand %d times, specification %d (limit terms + probe + n_bck with n_bck = %s)"
-                       % (nb, pred["bwdEvals"], NB if st["bckGiven"] else (NF if st["nGiven"] else ND)))
+            nbq = NB if st["bckGiven"] else (NF if st["nGiven"] else ND)
+            # allowed: the limit term of every tensor limit or only of those requiring grad; the parameter integral (probe + n_bck
+            # nodes) whenever a tensor parameter requires grad, optional when none does
+            ok_counts = set()
+            for lt in range(sum(1 for k_ in (st["xlKind"], st["xuKind"]) if k_.endswith("_grad")), sum(1 for k_ in (st["xlKind"], st["xuKind"]) if k_ != "number") + 1):
+                ok_counts.add(lt + 1 + nbq)
+                if not (hasA or st["hasUnused"]):
+                    ok_counts.add(lt)
+            if not (pred["bwdEvalsMin"] <= pred["bwdEvals"] and pred["bwdEvals"] in ok_counts and pred["bwdEvalsMin"] in ok_counts):
+                raise Machinery("QuadCfg evaluation counts %s / %s outside the harness's admissible set %s" % (pred["bwdEvalsMin"], pred["bwdEvals"], sorted(ok_counts)))
+            if nb not in ok_counts:
+                why = ("backward pass evaluated the integrand %d times, specification %s (limit terms + probe + n_bck with n_bck = %s)"
+                       % (nb, sorted(ok_counts), nbq))
                 kk = "quad/bwd/options-not-forwarded"
             else:
                 # values: same rule on the closed-form derivative; Leibniz terms
                 nb_ = NB if st["bckGiven"] else (NF if st["nGiven"] else ND)
-                lo = -math.inf if st["xlInf"] else -0.4
-                hi = math.inf if st["xuInf"] else 0.9
-                aa = a.detach()
+                lo = -math.inf if st["xlInf"] else LO
+                hi = math.inf if st["xuInf"] else HI
+                aa = torch.as_tensor(a, dtype=DT).detach()
                 dfa = lambda x: (-x ** 2 * torch.exp(-aa * x ** 2) * (aa + aa ** 2) + torch.exp(-aa * x ** 2) * (1 + 2 * aa))
                 ref_a = float(gauss(dfa, lo, hi, nb_))
                 kk = "quad/bwd/value"
-                if abs(float(g[0]) - ref_a) > 1e-9 * max(1.0, abs(ref_a)):
+                if hasA and abs(float(g[0]) - ref_a) > 1e-9 * max(1.0, abs(ref_a)):
                     why = "d/da = %r, the same %d-point rule on the derivative of the integrand gives %r" % (float(g[0]), nb_, ref_a)
                 fval = lambda x: float((math.exp(-0.8 * x * x) * (0.8 + 0.64)) if not math.isinf(x) else 0.0)
                 idx = 1 + (1 if st["hasUnused"] else 0)
                 if st["hasUnused"] and not (g[1] is None or float(g[1]) == 0.0):
                     why = "unused tensor received gradient %r" % float(g[1])
-                if st["xlKind"] == "tensor_grad":
-                    if abs(float(g[idx]) + fval(lo)) > 1e-12:
+                for lk, nm_ in ((st["xlKind"], "xl"), (st["xuKind"], "xu")):
+                    gi_ = g[idx] if lk.endswith("_grad") else None
+                    if gi_ is not None:
+                        idx += 1
+                        want = torch.float32 if lk == "tensor32_grad" else DT
+                        if gi_.dtype != want:
+                            why = "the gradient w.r.t. %s has dtype %s, the limit has %s" % (nm_, gi_.dtype, want)
+                idx = 1 + (1 if st["hasUnused"] else 0)
+                tl32 = 1e-6
+                if st["xlKind"].endswith("_grad"):
+                    if abs(float(g[idx]) + fval(lo)) > (tl32 if st["xlKind"] == "tensor32_grad" else 1e-12):
                         why = "d/dxl = %r, Leibniz rule gives %r" % (float(g[idx]), -fval(lo))
                     idx += 1
-                if st["xuKind"] == "tensor_grad":
-                    if abs(float(g[idx]) - fval(hi)) > 1e-12:
+                if st["xuKind"].endswith("_grad"):
+                    if abs(float(g[idx]) - fval(hi)) > (tl32 if st["xuKind"] == "tensor32_grad" else 1e-12):
                         why = "d/dxu = %r, Leibniz rule gives %r" % (float(g[idx]), fval(hi))
             if why:
                 ctx.violation(kk, "quad with %s: %s" % (label, why), {"cfg": str(key)})
+        # only the limits are differentiable (the integrand has no tensor parameter at all, or numbers only): Leibniz rule to second order
+        for pkind in ("none", "number", "tensor-without-grad"):
+            for lims in ((-0.3, 1.1), (1.0, -0.5)):
+                n += 1
+                ctx.case(key=("limits-only", pkind, lims))
+                xl = torch.tensor(lims[0], dtype=DT, requires_grad=True)
+                xu = torch.tensor(lims[1], dtype=DT, requires_grad=True)
+                ps = {"none": (), "number": (1.3,), "tensor-without-grad": (torch.tensor(1.3, dtype=DT),)}[pkind]
+                fm = lambda x, c=1.3: torch.sin(c * x) * torch.exp(-0.5 * x)
+                fi = lambda x, *c: fm(torch.as_tensor(x, dtype=DT), *c).reshape(1)
+                why = None
+                try:
+                    out = xitorch.integrate.quad(fi, xl, xu, params=ps, n=9)
+                    g1 = torch.autograd.grad(out.sum(), [xl, xu], create_graph=True)
+                    xr = [xl.detach().clone().requires_grad_(), xu.detach().clone().requires_grad_()]
+                    fr = [fm(xr[0]), fm(xr[1])]
+                    dfr = [torch.autograd.grad(fr[0], xr[0])[0], torch.autograd.grad(fr[1], xr[1])[0]]
+                    if abs(float(g1[0]) + float(fr[0])) > 1e-12 or abs(float(g1[1]) - float(fr[1])) > 1e-12:
+                        why = "(d/dxl, d/dxu) = (%r, %r), Leibniz rule gives (%r, %r)" % (float(g1[0]), float(g1[1]), -float(fr[0]), float(fr[1]))
+                    else:
+                        h = torch.autograd.grad(g1[0] + 2.0 * g1[1], [xl, xu], allow_unused=True)
+                        h = [0.0 if x is None else float(x) for x in h]
+                        if abs(h[0] + float(dfr[0])) > 1e-11 or abs(h[1] - 2.0 * float(dfr[1])) > 1e-11:
+                            why = "second derivatives w.r.t. the limits (%r, %r), Leibniz rule gives (-f'(xl), 2 f'(xu)) = (%r, %r)" % (h[0], h[1], -float(dfr[0]), 2.0 * float(dfr[1]))
+                except Exception as e:
+                    why = "raised %s: %s" % (type(e).__name__, str(e)[:160])
+                if why:
+                    ctx.violation("quad/bwd/limits-only", "quad with differentiable limits %s and parameters %s: %s" % (lims, pkind, why), {"pkind": pkind, "lims": list(lims)})
         # function kinds (object-held used and unused parameter), first and second order, several n / bck n
         for nf_, nb_ in ((7, None), (7, 5), (12, 30)) + (((3, 9), (20, None)) if thorough else ()):
             for lims in ((-0.3, 1.1), (1.0, -0.5), (-math.inf, 0.4)):
